@@ -455,11 +455,15 @@ func ruleV6(r *Run) {
 	}
 	if fd, _ := p.DeclOf("io", "Decoder.ResetReader"); fd != nil {
 		h, t := false, false
+		rparents := parentMap(fd.Body)
 		ast.Inspect(fd.Body, func(n ast.Node) bool {
 			if as, ok := n.(*ast.AssignStmt); ok {
+				// unconditionally: a window kept on one path (the decoder was already reading a stream) hands the
+				// leftover bytes of the previous stream to the new one
+				uncond := len(collectFacts(rparents, as)) == 0
 				for i, l := range as.Lhs {
 					if i < len(as.Rhs) {
-						if c, ok := intConst(info, as.Rhs[i]); ok && c == 0 {
+						if c, ok := intConst(info, as.Rhs[i]); ok && c == 0 && uncond {
 							if fieldOf(info, l) == headF {
 								h = true
 							}
@@ -484,7 +488,7 @@ func ruleV6(r *Run) {
 			return true
 		})
 		r.Check(dropsBuf, "stream mode never reads into a caller-owned buffer (Decoder.ResetReader)", fd.Pos(), "buf = nil when the previous input was bytes", "ResetReader keeps the buffer of a previous bytes-mode use, which is the caller's input slice: the first refill reads the stream into that slice (overwriting the caller's data), and with an empty former input Read is called with a zero-length buffer forever")
-		r.Check(h && t, "stream mode starts with an empty window (Decoder.ResetReader)", fd.Pos(), "head = 0; tail = 0", "ResetReader does not empty the window: bytes left from the previous input are decoded as the beginning of the new stream")
+		r.Check(h && t, "stream mode starts with an empty window (Decoder.ResetReader)", fd.Pos(), "head = 0; tail = 0 on every path", "ResetReader does not empty the window on every path: bytes left from the previous input (a stream that was read ahead of the decoded item) are decoded as the beginning of the new stream")
 	} else {
 		r.Undec("Decoder.ResetReader", 0, "not found")
 	}
